@@ -41,7 +41,7 @@ func miniDay(s *engSession, rng *Rng) {
 }
 
 func runC15(o *Out, rng *Rng, tier string, replay string) {
-	o.sum.Rule = "case = (a) a sequence of SetParams calls on one engine sweeping each documented limit at and around its boundary - flights per trip 0,1,49,50,51,huge; flight interval against trip length incl. zero and negative; all 256 thread bytes; algorithms 0..3 with every option bit; predictor windows 0,1,2,3; degrees 0..6; zero/negative/huge Daily Total - where every rejection must leave parameters and predictor unchanged (administrator hash) and every result code must equal the model's validity test; (b) for accepted sets a scripted five-day life (check-ins, proposals, promise-making, updates) under a wall-clock timeout and panic recovery, compared step by step with the model; non-trivial = a rejected and an accepted set / a mini-life that made a promise; distinct by script hash"
+	o.sum.Rule = "case = (a) a sequence of SetParams calls on one engine sweeping each documented limit at and around its boundary - flights per trip 0,1,49,50,51,huge; flight interval against trip length incl. zero and negative; all 256 thread bytes; algorithms 0..3 with every option bit; predictor windows 0,1,2,3; degrees 0..6; zero/negative/huge Daily Total - where every rejection must leave parameters and predictor unchanged (administrator hash) and every result code must equal the model's validity test; (b) for accepted sets - always including zero, negative, huge and tiny Daily Totals under the linear predictor and the polynomial predictor of every degree - a scripted five-day life (check-ins, proposals, promise-making, updates) under a wall-clock timeout and panic recovery, compared step by step with the model; non-trivial = a rejected and an accepted set / a mini-life that made a promise; distinct by script hash"
 	wd := filepath.Join(o.dir, "dbs")
 	nSweeps, nLives := 4, 40
 	if tier == "thorough" {
@@ -119,10 +119,24 @@ func runC15(o *Out, rng *Rng, tier string, replay string) {
 		}
 		s.close()
 	}
-	for k := 0; k < nLives; k++ {
+	// always covered first: extreme Daily Totals (zero, negative, huge, tiny) under both predictors
+	// and every polynomial degree (zero shares make the fitted curve the zero polynomial)
+	var special []flap.FlapParams
+	for _, dt := range []float64{0, -5, 1e300, 0.001} {
+		for _, ad := range [][2]uint32{{1, 1}, {2, 1}, {2, 2}, {2, 3}} {
+			p := base
+			p.DailyTotal = flap.Kilometres(dt)
+			p.Promises.Algo = flap.PromisesAlgo(ad[0])
+			p.Promises.Degree = ad[1]
+			special = append(special, p)
+		}
+	}
+	for k := 0; k < nLives+len(special); k++ {
 		r := rng.Fork()
 		p := okSets[r.Intn(len(okSets))]
-		if r.Chance(1, 2) { // combine two accepted sets
+		if k < len(special) {
+			p = special[k]
+		} else if r.Chance(1, 2) { // combine two accepted sets
 			q := okSets[r.Intn(len(okSets))]
 			p.Threads = q.Threads
 			p.Promises = q.Promises
